@@ -257,10 +257,10 @@ theorem urlArgs_skip_propname : ∀ (pn value : Str), '(' ∉ pn → urlArgs (pn
 
 /-! ### an accepted `url()` argument, as the browser reads it -/
 
-/-- the scheme a browser reads in the argument — if it is made of letters and digits only — is safe -/
+/-- the scheme a browser reads in the argument, with its `+ - .` removed, is a safe scheme
+    (for a scheme of letters and digits: the scheme itself is safe) -/
 def GoodArg (cfg : Cfg) (arg : Str) : Prop :=
-  ∀ sch, browserScheme (trimArg arg) = some sch → (∀ c ∈ sch, c ≠ '+' ∧ c ≠ '-' ∧ c ≠ '.') →
-    sch ∈ cfg.safeSchemes
+  ∀ sch, browserScheme (trimArg arg) = some sch → dropPunct sch ∈ cfg.safeSchemes
 
 theorem stripBy_decomp (p : Char → Bool) (s : Str) : ∃ t1 t2, s = t1 ++ Genshi.Str.stripBy p s ++ t2 ∧
     (∀ c ∈ t1, p c = true) ∧ (∀ c ∈ t2, p c = true) := by
@@ -352,9 +352,9 @@ theorem quote_space_not_alnum {c : Char} (h : isSpace c = true ∨ isQuote c = t
 
 theorem good_of_safe {cfg : Cfg} {g arg : Str} (hsafe : isSafeUri cfg g = true)
     (harg : arg = g ∨ ∃ m, arg = g ++ ';' :: m) : GoodArg cfg arg := by
-  intro sch hb hp
+  intro sch hb
   obtain ⟨lead, trail, hdec, hlead⟩ := trimArg_decomp arg
-  obtain ⟨pre, r, hsp, hlow, hall⟩ := browserScheme_pre hb hp
+  obtain ⟨pre, r, hsp, hlow, hall⟩ := browserScheme_pre' hb
   -- the first colon of the whole argument
   have hcl : ':' ∉ lead := by
     intro hm
@@ -363,17 +363,17 @@ theorem good_of_safe {cfg : Cfg} {g arg : Str} (hsafe : isSafeUri cfg g = true)
     · revert h; decide
   have hsplit : split1 ':' arg = (lead ++ pre, some (r ++ trail)) := by
     rw [hdec, List.append_assoc, split1_append_left _ hcl, split1_append_right trail hsp]
-  have hnot : ∀ x, isWsCtl x = false → isAsciiAlpha x = false → isAsciiDigit x = false →
+  have hnot : ∀ x, isWsCtl x = false → isSchemeChar x = false →
       isSpace x = false → isQuote x = false → x ∉ lead ++ pre := by
-    intro x h1 h2 h3 h4 h5 hm
+    intro x h1 h2 h4 h5 hm
     simp at hm
     rcases hm with hm | hm
     · rcases hlead _ hm with h | h
       · rw [h4] at h; cases h
       · rw [h5] at h; cases h
-    · exact not_mem_pre hall h1 h2 h3 hm
-  have hhash : '#' ∉ lead ++ pre := hnot '#' (by decide) (by decide) (by decide) (by decide) (by decide)
-  have hsemi : ';' ∉ lead ++ pre := hnot ';' (by decide) (by decide) (by decide) (by decide) (by decide)
+    · exact not_mem_pre hall h1 h2 hm
+  have hhash : '#' ∉ lead ++ pre := hnot '#' (by decide) (by decide) (by decide) (by decide)
+  have hsemi : ';' ∉ lead ++ pre := hnot ';' (by decide) (by decide) (by decide) (by decide)
   have hfil : (lead ++ pre).filter isAlnum = pre.filter isAlnum := by
     rw [List.filter_append]
     have : lead.filter isAlnum = [] := by
